@@ -2,6 +2,7 @@ import OdmlModel.Py.Posix
 import OdmlModel.Model.PathTree
 import OdmlModel.Model.Path
 import OdmlModel.Model.PathName
+import OdmlModel.Model.PathMove
 import Driver.Util
 import Driver.Loop
 open Lean Drv
@@ -211,6 +212,19 @@ def handle (j : Json) : Except String Json := do
     match r with
     | .ok names => pure (jobj [("ok", jarr (names.map jchars))])
     | .keyError => pure (jobj [("raised", Json.bool true)])
+  | "setparent" =>
+    -- x.parent = new_parent for entry i of the child list `old` (Model/PathMove.lean); entries: [name, type]
+    let decKid (k : Json) : Except String PathMove.Kid := do
+      match k with
+      | .arr a =>
+        if h : a.size = 2 then pure ⟨← decStr a[0], ← decStr a[1]⟩ else throw "[name, type] expected"
+      | _ => throw "[name, type] expected"
+    let encKid (k : PathMove.Kid) : Json := jarr [jchars k.name, jchars k.type]
+    let old ← (← getArr j "old").toList.mapM decKid
+    let new ← (← getArr j "new").toList.mapM decKid
+    let m := PathMove.setParent old (← getNat j "i") new (← getBool j "below")
+    pure (jobj [("raised", Json.bool m.raised), ("old", jarr (m.old.map encKid)), ("new", jarr (m.new.map encKid)),
+      ("par", Json.str (match m.par with | .old => "old" | .new => "new"))])
   | _ => throw s!"unknown op {op}"
 
 end DrvC14
